@@ -838,7 +838,58 @@ def c17_ble_cases(draw):
             "rfrag": draw(st.sampled_from([20, 23, 100, 512])), "mwwrs": draw(st.sampled_from([None, None, -10, 0, 1, 20, 200]))}
 
 
-C17_BLE_LAYERS = [Layer("ble-api", run_c17_ble, strategy=c17_ble_cases, n={"quick": 1500, "thorough": 20000})]
+def run_c17_ble_twins(case, R):
+    """Characteristics of one type in one service: every request reaches the instance it names (PDU instance id and GATT handle agree) and every
+    answer is attributed to it, whatever was resolved before on the link."""
+    order = case["order"]
+    R.nt(len({i for _, i in order}) >= 2)
+    R.cls("ble-twins")
+
+    async def main(loop):
+        w = BleWorld(loop, k=case.get("k", 0))
+        try:
+            p = w.pairing
+            held = {}
+            for n, (kind, iid) in enumerate(order):
+                what = f"BLE twins {order}: step {n} {kind} {iid}"
+                try:
+                    if kind == "w":
+                        held[iid] = 10 + n
+                        r = await p.put_characteristics([(1, iid, 10 + n)])
+                        if r:
+                            R.fail("C17.pdu-misattributed", f"{what}: write reported {r!r}", transport="ble-twins")
+                            return
+                    else:
+                        r = await p.get_characteristics([(1, iid)])
+                        exp = {(1, iid): {"value": held.get(iid, 0)}}
+                        if r != exp:
+                            R.fail("C17.pdu-misattributed", f"{what}: read returned {r!r}, the accessory holds {exp!r}", transport="ble-twins")
+                            return
+                except Exception as e:  # noqa: BLE001
+                    R.fail("C17.ble-api", f"{what}: {type(e).__name__}: {e}", exc=type(e).__name__)
+                    return
+                for iid_, v in held.items():
+                    if w.acc.chars[iid_]["value"] != bytes([v]):
+                        R.fail("C17.pdu-misattributed", f"{what}: the accessory holds {w.acc.chars[iid_]['value']!r} for {iid_}, written {v}", transport="ble-twins")
+                        return
+                if case.get("drop_at") == n:
+                    w.client.drop()
+                    await vtime.settle(loop)
+            await p.shutdown()
+        finally:
+            w.restore()
+    vtime.run(main)
+
+
+def enum_c17_ble_twins(tier):
+    for perm in itertools.permutations([20, 21, 22]):
+        yield {"order": [["w", i] for i in perm] + [["r", i] for i in reversed(perm)]}
+        yield {"order": [["r", perm[0]], ["w", perm[1]], ["r", perm[1]], ["w", perm[0]], ["r", perm[2]], ["r", perm[0]]], "drop_at": 2}
+
+
+C17_BLE_LAYERS = [Layer("ble-api", run_c17_ble, strategy=c17_ble_cases, n={"quick": 1500, "thorough": 20000}),
+                  Layer("ble-same-type-instances", run_c17_ble_twins, enumerate=enum_c17_ble_twins, exhaustive=True,
+                        space="3 characteristics of one type in one service: writes and reads in all 6 orders, with a link loss in between", min_nontrivial=10)]
 
 
 # ---------------------------------------------------------------- C04: add-/remove-pairing replies on IP (same cells as BLE)
